@@ -266,6 +266,26 @@ let dispatch (req : string list) (impl : string list) : string * string =
     let z = Zenc.zerv { Zenc.f = Array.of_list req; Zenc.i = 1 } in
     if not (schema_validate z.z_schema) then ("INVALID", if impl = [ "INVALID" ] then "OK" else "BAD:schema-validation")
     else ("OK " ^ field_of_str (zerv_ron z), (match impl with "OK" :: _ -> "OK" | "INVALID" :: _ -> "BAD:schema-validation" | _ -> "BAD:ron-roundtrip"))
+  | "PYA" :: fn :: _ ->
+    (* PYA <fn> <npos> pos.. <nkw> (kw value)* : the argv the Python function builds, over the regenerated tables *)
+    let c = { Zenc.f = Array.of_list req; Zenc.i = 2 } in
+    let npos = int_of_string (Zenc.next c) in
+    let pos = List.init npos (fun _ -> str_of_field (Zenc.next c)) in
+    let nkw = int_of_string (Zenc.next c) in
+    let value t =
+      if t = "n" then PNone else if t = "t" then PBool true else if t = "f" then PBool false
+      else if String.sub t 0 2 = "i:" then PInt (z_of_dec (String.sub t 2 (String.length t - 2)))
+      else PStr (str_of_field (String.sub t 2 (String.length t - 2))) in
+    let kwargs = List.init nkw (fun _ -> let k = str_of_field (Zenc.next c) in let v = value (Zenc.next c) in (k, v)) in
+    let base, table =
+      match fn with
+      | "version" -> (py_version_base, py_version_table) | "flow" -> (py_flow_base, py_flow_table)
+      | "check" -> (py_check_base, py_check_table) | "render" -> (py_render_base, py_render_table)
+      | o -> failwith ("fn " ^ o) in
+    let version_name = List.map (fun ch -> Wire.n_of_int (Char.code ch)) [ 'v'; 'e'; 'r'; 's'; 'i'; 'o'; 'n' ] in
+    let positional = match pos with [ v ] -> [ (version_name, PStr v) ] | _ -> [] in
+    let argv = py_argv base table positional kwargs in
+    ("OK" ^ String.concat "" (List.map (fun a -> " " ^ field_of_str a) argv), "NA")
   | "GIT" :: fmt :: _ ->
     (* GIT <fmt> <n> (<id> <k> parents.. <time> <hash>)* <m> (<name> <commit id>)* <branch|~> <dirty> A <argc> argv.. N <now> *)
     let c = { Zenc.f = Array.of_list req; Zenc.i = 2 } in
